@@ -58,6 +58,7 @@ type Report struct {
 	WallS   float64
 	bounded []BoundedResult
 	bviol   []string
+	knownBoundedN int
 }
 
 func buildReport(eng *Engine, cfg *PropConfig, prop, tier string, obligs []*Oblig, funcs []string, outDir, verif, repo string) *Report {
@@ -373,6 +374,38 @@ func (r *Report) runBounded() {
 		if err == nil && res.Cases == 0 {
 			res.Passed = false
 			err = fmt.Errorf("bounded harness enumerated zero cases")
+		}
+		if err != nil && len(bc.KnownEnv) > 0 {
+			// A recorded known finding of this stand-in: the harness is re-run with the
+			// environment that excludes exactly the recorded failing class. If that run
+			// passes, only the known finding is present; anything else is a new violation.
+			if kf := r.knownBounded(bc.Name); kf != nil {
+				cmd2 := exec.Command("go", args...)
+				cmd2.Dir = r.repo
+				cmd2.Env = append(os.Environ(), "GOFLAGS=-mod=mod", "GOPROXY=off", "GOSUMDB=off", "GOTOOLCHAIN=local", "VERIF_TIER="+r.tier)
+				for k, v := range bc.Env {
+					cmd2.Env = append(cmd2.Env, k+"="+v)
+				}
+				for k, v := range bc.KnownEnv {
+					cmd2.Env = append(cmd2.Env, k+"="+v)
+				}
+				out2, err2 := cmd2.CombinedOutput()
+				var cases int64
+				for _, m := range boundedLine.FindAllStringSubmatch(string(out2), -1) {
+					n, _ := strconv.ParseInt(m[2], 10, 64)
+					cases += n
+				}
+				if err2 == nil && cases > 0 {
+					fmt.Printf("KNOWN-FINDING: property=%s bounded:%s: %s\n", r.prop, bc.Name, kf.What)
+					res.Passed = true
+					res.Cases = cases
+					res.Label += "; known finding excluded: " + kf.What
+					res.WallS = time.Since(t0).Seconds()
+					r.bounded = append(r.bounded, res)
+					r.knownBoundedN++
+					continue
+				}
+			}
 		}
 		r.bounded = append(r.bounded, res)
 		if err != nil {
